@@ -92,13 +92,18 @@ class Harness(object):
                 self_.release()
         # every lock the transaction manager creates is an instrumented one (so that a blocked thread is
         # 'not enabled' for the scheduler instead of a blocked OS thread)
+        import threading
         import pymodbus.transaction as ptx
-        self._saved_rlock = ptx.RLock
-        ptx.RLock = lambda *a, **k: LoggedLock(s, 'lock')
+        factory = lambda *a, **k: LoggedLock(s, 'lock')   # noqa: E731
+        self._saved_rlock = (getattr(ptx, 'RLock', None), threading.RLock, threading.Lock)
+        if self._saved_rlock[0] is not None:
+            ptx.RLock = factory
+        threading.RLock = factory        # however the manager spells it -- only while the client is being constructed
+        threading.Lock = factory
         try:
             self.client = clients.make_client(kind, self.line, **kw)
         finally:
-            pass
+            threading.RLock, threading.Lock = self._saved_rlock[1], self._saved_rlock[2]
         me = self
 
         def tid():
@@ -192,8 +197,11 @@ class Harness(object):
         return run
 
     def close(self):
+        import threading
         import pymodbus.transaction as ptx
-        ptx.RLock = self._saved_rlock
+        if self._saved_rlock[0] is not None:
+            ptx.RLock = self._saved_rlock[0]
+        threading.RLock, threading.Lock = self._saved_rlock[1], self._saved_rlock[2]
         self.patch.__exit__(None, None, None)
 
 
